@@ -19,6 +19,8 @@ type IntsBuilder struct {
 	FinalAppsMap syslutil.StrSet
 	Deps         syslutil.StrSet
 	DepsOut      []AppDependency
+	// pass-through endpoints whose walk is in progress ("app <- endpoint")
+	walking syslutil.StrSet
 }
 
 func sortedSlice(endpts map[string]*sysl.Endpoint) []string {
@@ -138,6 +140,17 @@ func (b *IntsBuilder) MyCallers(sourceApp, epname string, t *sysl.Statement) {
 
 func (b *IntsBuilder) WalkPassthrough(appname, epname string) {
 	if b.Passthroughs.Contains(appname) {
+		// pass-through applications may call each other in a cycle: an endpoint
+		// whose walk is already in progress is not walked again
+		key := appname + " <- " + epname
+		if b.walking.Contains(key) {
+			return
+		}
+		if b.walking == nil {
+			b.walking = syslutil.StrSet{}
+		}
+		b.walking.Insert(key)
+		defer b.walking.Remove(key)
 		endpt := b.M.GetApps()[appname].GetEndpoints()[epname]
 		ProcessCalls(appname, epname, endpt.GetStmt(), b.ProcessExcludeAndPassthrough)
 	}
